@@ -90,3 +90,15 @@ def run_c04(v):
 
 def run_c14(v):
     _history(v, {"C14"}, end_compact=True)
+    # the same battery of queries and filters before and after compaction, both judged by the
+    # absolute search oracle (Search.tla) - hence equal to each other
+    quick = v.tier == "quick"
+    binary = lib.build_harness()
+    trace = lib.outpath(v.prop, "search-compact.ndjson")
+    s = lib.svh(binary, ["search", "--family", "compact", "--seed", v.seed, "--out", trace,
+                         "--scenarios", 6 if quick else 80, "--requests", 24 if quick else 40], timeout=7200)
+    msgs, dt, _ = lib.tlc_trace("Trace_Search.tla", trace, timeout=7200, xmx="8g")
+    lib.judge_trace(v, msgs, {"C14"})
+    v.coverage["traces_validated_against_impl"] += s["scenarios"]
+    v.coverage["query_filter_battery_requests"] = s["requests"]
+    v.assumptions.append("query/filter equivalence across compaction is judged on compact-safe schemas (every indexed/fast field stored)")
